@@ -54,15 +54,36 @@ def run_unit(unit_name, repo, workdir, canary=False):
     tpl = os.path.join(VERIF, "vx", "units", unit_name + ".rs")
     out = dict(unit=unit_name, status="undecided", failures=[], reason="", functions=0, verified=0,
                clauses=0, items=[], assumptions=[], smt_ms=0, wall_s=0.0, cmd="", fn_results={})
-    try:
-        u = build_unit(tpl, repo, canary=canary)
-    except (ExtractError, LexError) as e:
-        out["reason"] = "extract: %s" % e
-        return out
+    helpers = {}
     os.makedirs(workdir, exist_ok=True)
     gen = os.path.join(workdir, unit_name + ("_canary" if canary else "") + ".rs")
-    open(gen, "w").write(u.text)
-    rc, res, diags, stderr, dt, cmd = run_verus(gen, workdir)
+    for attempt in range(4):
+        try:
+            u = build_unit(tpl, repo, canary=canary, helpers=helpers)
+        except (ExtractError, LexError) as e:
+            out["reason"] = "extract: %s" % e
+            return out
+        open(gen, "w").write(u.text)
+        rc, res, diags, stderr, dt, cmd = run_verus(gen, workdir)
+        # a callee the unit does not list (helper introduced by a refactor): pull it in and retry
+        missing = []
+        for d in diags:
+            mm = re.search(r"no method named `(\w+)` found|cannot find function `(\w+)`|no function or associated item named `(\w+)` found", d.get("message", ""))
+            if mm and d.get("level") == "error":
+                name = mm.group(1) or mm.group(2) or mm.group(3)
+                line = ([sp["line_start"] for sp in d.get("spans", []) if sp.get("is_primary")] or [0])[0]
+                fns = [x for x in u.items if x["kind"] == "fn" and not x.get("canary") and not x.get("auto")]
+                for ordn, it in enumerate(fns):
+                    if it["line_lo"] <= line <= it["line_hi"]:
+                        missing.append((ordn, name))
+        if not missing:
+            break
+        have = set(n for v in helpers.values() for n in v)
+        for ordn, name in sorted(missing):
+            if name not in have:
+                helpers.setdefault(ordn, []).append(name)
+                have.add(name)
+    out["auto_helpers"] = sorted(set(n for v in helpers.values() for n in v))
     out["wall_s"] = round(dt, 2)
     out["cmd"] = cmd
     out["items"] = u.items
@@ -122,13 +143,21 @@ def run_unit(unit_name, repo, workdir, canary=False):
             obligation="%s::%s::%s[%s]" % (unit_name, fn or "?", msg, clause[:120]),
             function=fn, props=props, item_idx=item_idx, message=msg, clause=clause, line=line, kind=kind,
             rendered=(d.get("rendered") or "")[:3000]))
+    impure = [it["name"] for it in u.items if it.get("auto") and not it.get("pure")]
+    if impure and out["failures"]:
+        for f in out["failures"]:
+            f["kind"] = "tool"
+        out["reason"] = "code now calls helper(s) %s that have no contract in the unit (needs contract, not a refutation)" % impure
     if not out["failures"] and vr.get("success"):
         out["status"] = "ok"
-    elif any(f["kind"] == "tool" for f in out["failures"]) or not out["failures"]:
-        out["status"] = "undecided"
-        out["reason"] = "; ".join(f["message"] for f in out["failures"] if f["kind"] == "tool") or "verus failed"
-    else:
+    elif any(f["kind"] == "refuted" for f in out["failures"]):
+        # refutations stand even if another function ran into a tool limit
         out["status"] = "fail"
+        out["tool_limits"] = [f["obligation"] for f in out["failures"] if f["kind"] == "tool"]
+        out["failures"] = [f for f in out["failures"] if f["kind"] == "refuted"]
+    else:
+        out["status"] = "undecided"
+        out["reason"] = out["reason"] or "; ".join(f["message"] for f in out["failures"] if f["kind"] == "tool") or "verus failed"
     return out
 
 
